@@ -189,6 +189,7 @@ type SweepingProvider struct {
 	scheduleCursor         bitstr.Key
 	scheduleTimer          *time.Timer
 	scheduleTimerStartedAt time.Time
+	scheduleTimerDeadline  time.Time
 
 	// Active reprovides tracking
 	activeReprovidesLk sync.Mutex
@@ -553,6 +554,7 @@ func (s *SweepingProvider) scheduleNextReprovideNoLock(prefix bitstr.Key, timeUn
 	s.scheduleCursor = prefix
 	s.scheduleTimer.Reset(timeUntilReprovide)
 	s.scheduleTimerStartedAt = time.Now()
+	s.scheduleTimerDeadline = s.scheduleTimerStartedAt.Add(timeUntilReprovide)
 }
 
 func (s *SweepingProvider) reschedulePrefix(prefix bitstr.Key) {
@@ -600,9 +602,13 @@ func (s *SweepingProvider) schedulePrefixNoLock(prefix bitstr.Key, justReprovide
 	followingKey := keyspace.NextNonEmptyLeaf(s.schedule, prefix, s.order).Key
 	if followingKey == s.scheduleCursor {
 		// The key following prefix is the schedule cursor.
+		// Compare with the time left on the programmed alarm. The cursor's offset
+		// cannot be used for this: an offset equal to the current one means "due
+		// now" for an alarm about to fire, but "due in a full interval" for the
+		// region that was just reprovided, and taking it for the former made every
+		// region split off a just-reprovided single region skip a whole cycle.
 		timeUntilPrefixReprovide := s.timeUntil(nextReprovideTime)
-		_, scheduledAlarm := trie.Find(s.schedule, s.scheduleCursor)
-		if timeUntilPrefixReprovide < s.timeUntil(scheduledAlarm)%s.reprovideInterval {
+		if timeUntilPrefixReprovide < time.Until(s.scheduleTimerDeadline) {
 			s.scheduleNextReprovideNoLock(prefix, timeUntilPrefixReprovide)
 		}
 	}
